@@ -76,13 +76,20 @@ class FortranNameManager:
         # up as 'lploc_y' and 'lploc_Y'.
         result = make_identifier_from_name(name).lower()
 
+        if not result[0].isalpha():
+            # e.g. a function called '1f' (variables always get a prefix)
+            result = "f_" + result
+
         # Identifiers may have at most 63 characters. Leave room for the
         # 'dagrt_refcnt_' prefix and for the suffix that makes names unique.
         return result[:45]
 
     def __init__(self):
         from pytools import UniqueNameGenerator
-        self.name_generator = UniqueNameGenerator()
+        # Names the generated module uses for itself are taken from the start.
+        self.name_generator = UniqueNameGenerator({
+            "dagrt_state", "dagrt_ierr", "dagrt_stderr", "dagrt_state_type",
+            "initialize", "run", "shutdown", "print_profile"})
         self.local_map = KeyToUniqueNameMap(
                 name_generator=self.name_generator,
                 key_translate_func=self.make_fortran_identifier)
